@@ -111,6 +111,56 @@ func runC17(w *World, r *Report) {
 	// ---- the inline call runs while its siblings run
 	r.Rule("C17.stream-errors-forwarded", "the forwarding goroutines behind the merge of the per-tool streams pass every item on, error items included, and stop only at io.EOF or a closed receiver (shared with C08.forwarder-protocol): a tool failing inside its stream fails the streamed call as it fails Invoke", 6)
 	forwarderChecks(w, r, "C17.stream-errors-forwarded")
+	r.Rule("C17.tools-not-rebound", "nothing on the tools node's run path writes a field of the node or of another compiled object: the tool list of a WithToolList call option is this call's, the node keeps the tools it was built with (shared with C09.read-only-at-runtime)", 0)
+	{
+		roots := []*ssa.Function{w.Fn("compose", "ToolsNode.Invoke"), w.Fn("compose", "ToolsNode.Stream")}
+		ruleReadOnlyAtRuntime(w, r, "C17.tools-not-rebound", w.reachableFrom(roots...), compiledTypeSet(w), roots)
+	}
+	// the dispatch table: the position recorded for a tool name is the position its executor is stored at
+	r.Rule("C17.tool-index-consistent", "convTools records for every tool name the very index under which it stores the tool's meta and runnable (or len(slice) taken right before an append)", 1)
+	{
+		ct := w.Fn("compose", "convTools")
+		fIdx := w.Field("compose", "toolsTuple", "indexes")
+		var idxVal ssa.Value
+		var at ssa.Instruction
+		instrs(ct, func(in ssa.Instruction) {
+			if mu, ok := in.(*ssa.MapUpdate); ok && isLoadOfField(mu.Map, fIdx) {
+				idxVal, at = mu.Value, in
+			}
+		})
+		good, det := idxVal != nil, "no store into toolsTuple.indexes found"
+		if good {
+			for _, fname := range []string{"meta", "rps"} {
+				f := w.Field("compose", "toolsTuple", fname)
+				okF := false
+				instrs(ct, func(in ssa.Instruction) {
+					st, ok := in.(*ssa.Store)
+					if !ok {
+						return
+					}
+					if ia, ok := st.Addr.(*ssa.IndexAddr); ok && isLoadOfField(ia.X, f) && ia.Index == idxVal {
+						okF = true
+					}
+				})
+				// append form: the recorded index is len(field) evaluated before the append
+				if !okF && isLenOf(idxVal, func(v ssa.Value) bool { return isLoadOfField(v, f) }) {
+					for _, fw := range fieldWrites(ct) {
+						if sameField(fw.field, f) && fw.kind == "append-store" && instrDominates(idxVal.(ssa.Instruction), fw.in) {
+							okF = true
+						}
+					}
+				}
+				if !okF {
+					good, det = false, "toolsTuple."+fname+" is not stored at the recorded index"
+				}
+			}
+		}
+		pos := ct.Pos()
+		if at != nil {
+			pos = at.Pos()
+		}
+		r.Check(good, "C17.tool-index-consistent", "convTools: indexes[name] is where meta / rps of that tool are stored", pos, "one index value for the name table and both slices", det+": the name table points one slot off for every tool listed after a skipped entry — a call is answered by the NEXT tool in the list under the right call id (Invoke and Stream), a call to the last tool panics with index out of range")
+	}
 	r.Rule("C17.inline-after-spawn", "parallelRunToolCall spawns every sibling before it runs the first call inline (no call may have to wait for call 0)", 1)
 	{
 		prtc := w.Fn("compose", "parallelRunToolCall")
@@ -178,6 +228,42 @@ func runC17(w *World, r *Report) {
 			if e := extractOf(c, 0); e != nil {
 				return e
 			}
+		}
+		// through a method of the node that returns what genToolCallTasks returned (a shared "first half" helper)
+		var viaHelper ssa.Value
+		instrs(fn, func(in ssa.Instruction) {
+			c, ok := in.(ssa.CallInstruction)
+			if !ok || viaHelper != nil {
+				return
+			}
+			sc := staticCallee(c)
+			if sc == nil || !w.inRepo(sc) || len(callsTo(sc, gen)) == 0 {
+				return
+			}
+			forwards := false
+			instrs(sc, func(x ssa.Instruction) {
+				ret, ok := x.(*ssa.Return)
+				if !ok || len(ret.Results) == 0 {
+					return
+				}
+				for _, gc := range callsTo(sc, gen) {
+					gv := gc.(ssa.Value)
+					if ret.Results[0] == gv || ret.Results[0] == ssa.Value(extractOf(gc, 0)) {
+						forwards = true
+					}
+					if e, ok := ret.Results[0].(*ssa.Extract); ok && e.Tuple == gv && e.Index == 0 {
+						forwards = true
+					}
+				}
+			})
+			if forwards {
+				if e := extractOf(c, 0); e != nil {
+					viaHelper = e
+				}
+			}
+		})
+		if viaHelper != nil {
+			return viaHelper
 		}
 		undecidedf("C17: %s does not call genToolCallTasks", fn.Name())
 		return nil
@@ -698,30 +784,60 @@ func runC17(w *World, r *Report) {
 		runner string
 	}{{invoke, "runToolCallTaskByInvoke"}, {stream, "runToolCallTaskByStream"}} {
 		seq := []*ssa.Function{w.Fn("compose", "getToolsNodeOptions"), w.Fn("compose", "convTools"), gen, prt}
+		// a step is performed by the method itself or inside ONE module function it calls (a shared "first half" helper)
+		type site struct {
+			outer, inner ssa.CallInstruction
+		}
+		find := func(f *ssa.Function) (site, bool) {
+			if cs := callsTo(p.fn, f); len(cs) == 1 {
+				return site{cs[0], cs[0]}, true
+			} else if len(cs) > 1 {
+				return site{}, false
+			}
+			var out []site
+			instrs(p.fn, func(in ssa.Instruction) {
+				c, ok := in.(ssa.CallInstruction)
+				if !ok {
+					return
+				}
+				h := staticCallee(c)
+				if h == nil || !w.inRepo(h) || h == f {
+					return
+				}
+				if ics := callsTo(h, f); len(ics) == 1 {
+					out = append(out, site{c, ics[0]})
+				}
+			})
+			if len(out) == 1 {
+				return out[0], true
+			}
+			return site{}, false
+		}
+		before := func(a, b site) bool {
+			if a.outer != b.outer {
+				return instrDominates(a.outer, b.outer)
+			}
+			return instrDominates(a.inner, b.inner)
+		}
 		good := true
-		var prev ssa.CallInstruction
-		for i, f := range seq {
-			cs := callsTo(p.fn, f)
-			if len(cs) != 1 {
+		var sites []site
+		for _, f := range seq {
+			st, ok := find(f)
+			if !ok {
 				good = false
 				break
 			}
-			if prev != nil && i != 2 && !instrDominates(prev, cs[0]) { // convTools is conditional: it need not dominate gen
+			sites = append(sites, st)
+		}
+		if good {
+			// options first; task generation after the options; the parallel run after task generation (convTools is
+			// conditional: it need not dominate the generation)
+			good = before(sites[0], sites[2]) && before(sites[2], sites[3]) && before(sites[0], sites[1])
+			if !funcArgIs(sites[3].inner.Common().Args[1], w.Fn("compose", p.runner)) {
 				good = false
 			}
-			if i == 2 {
-				// genToolCallTasks after options
-				if !instrDominates(callsTo(p.fn, seq[0])[0], cs[0]) {
-					good = false
-				}
-			}
-			if i != 1 {
-				prev = cs[0]
-			}
-			if f == prt {
-				if !funcArgIs(cs[0].Common().Args[1], w.Fn("compose", p.runner)) {
-					good = false
-				}
+			if sites[3].outer != sites[3].inner {
+				good = false // the runner is chosen by the method itself, not by a helper shared with its sibling
 			}
 		}
 		r.Check(good, "C17.siblings", p.fn.Name()+" follows the common protocol with "+p.runner, p.fn.Pos(), "options -> [convTools] -> genToolCallTasks -> parallelRunToolCall(runner)", "Invoke/Stream diverge (wrong runner or a missing step)")
